@@ -26,6 +26,12 @@ type walState struct {
 	commits    map[int32]bool   // transactions whose COMMIT record is on stable storage
 	lastLSN    map[int32]int32  // per transaction: LSN of its last record
 	violations []crashFinding
+	// content rule: a heap page image may differ from the previous durable image of that page only in
+	// places that a record on stable storage speaks about
+	mentions map[[2]int32]int    // (page, slot) -> number of durable records about that row id
+	links    map[[2]int32]bool   // (prev page, new page) of durable NewTablePage records
+	lastImg  map[int32][]byte    // last image of each heap page that reached the data file
+	seenAt   map[[2]int32]int    // mentions[(page,slot)] when the page was last written
 }
 
 // feed parses newly appended log bytes with the repository's own record parser.
@@ -60,16 +66,80 @@ func (w *walState) feed(ctx string) {
 				w.maxLSN = lsn
 			}
 		}
-		if rec.LogRecordType == recovery.COMMIT {
+		switch rec.LogRecordType {
+		case recovery.COMMIT:
 			w.commits[txn] = true
+		case recovery.INSERT:
+			w.mentions[[2]int32{int32(rec.InsertRID.PageID), int32(rec.InsertRID.SlotNum)}]++
+		case recovery.MARKDELETE, recovery.APPLYDELETE, recovery.ROLLBACKDELETE:
+			w.mentions[[2]int32{int32(rec.DeleteRID.PageID), int32(rec.DeleteRID.SlotNum)}]++
+		case recovery.UPDATE:
+			w.mentions[[2]int32{int32(rec.UpdateRID.PageID), int32(rec.UpdateRID.SlotNum)}]++
+		case recovery.NewTablePage:
+			w.links[[2]int32{int32(rec.PrevPageID), int32(rec.PageID)}] = true
 		}
 		w.parsed += int(rec.Size)
 	}
 }
 
+// slotContent: what slot s of a table page image holds (size word incl. the delete mark + the row bytes),
+// "" if the image has no such slot. Offsets are not part of it: compaction moves bytes without changing rows.
+func slotContent(img []byte, s int) string {
+	if len(img) < 24 {
+		return ""
+	}
+	n := int(binary.LittleEndian.Uint32(img[20:24]))
+	if s >= n || 24+8*s+8 > len(img) {
+		return ""
+	}
+	off := int(binary.LittleEndian.Uint32(img[24+8*s:]))
+	sz := binary.LittleEndian.Uint32(img[28+8*s:])
+	real := int(sz &^ (1 << 31))
+	if off == 0 && real == 0 {
+		return "empty-slot"
+	}
+	if off+real > len(img) {
+		return fmt.Sprintf("size=%#x@bad-offset", sz)
+	}
+	return fmt.Sprintf("size=%#x:%x", sz, img[off:off+real])
+}
+
+// contentRule compares the image being written with the previous durable image of the page.
+func (w *walState) contentRule(hr *HistoryRun, pg int32, img []byte, ctx string) {
+	prev, ok := w.lastImg[pg]
+	if !ok {
+		if lo := int(pg) * 4096; lo+4096 <= len(hr.Base.DB) {
+			prev = hr.Base.DB[lo : lo+4096]
+		}
+	}
+	np, ni := 0, int(binary.LittleEndian.Uint32(img[20:24]))
+	if len(prev) >= 24 {
+		np = int(binary.LittleEndian.Uint32(prev[20:24]))
+	}
+	for s := 0; s < max(np, ni) && s < 500; s++ {
+		key := [2]int32{pg, int32(s)}
+		if slotContent(prev, s) != slotContent(img, s) && w.mentions[key] <= w.seenAt[key] {
+			w.violations = append(w.violations, crashFinding{"C08", "page-change-without-durable-record/row/" + ctx,
+				fmt.Sprintf("heap page %d written: slot %d differs from the last image of the page on disk, but no log record about row id (%d,%d) has reached stable storage since then (log ends at LSN %d; %s)", pg, s, pg, s, w.maxLSN, ctx)})
+		}
+		w.seenAt[key] = w.mentions[key]
+	}
+	next := int32(binary.LittleEndian.Uint32(img[12:16]))
+	prevNext := int32(-1)
+	if len(prev) >= 16 && (ok || binary.LittleEndian.Uint32(prev[0:4]) == uint32(pg)) {
+		prevNext = int32(binary.LittleEndian.Uint32(prev[12:16]))
+	}
+	if next != prevNext && next >= 0 && !w.links[[2]int32{pg, next}] {
+		w.violations = append(w.violations, crashFinding{"C08", "page-change-without-durable-record/next-page-link/" + ctx,
+			fmt.Sprintf("heap page %d written with next-page link %d (on disk before: %d) while no NewTablePage(prev=%d, page=%d) record is on stable storage (log ends at LSN %d; %s)", pg, next, prevNext, pg, next, w.maxLSN, ctx)})
+	}
+	w.lastImg[pg] = append([]byte{}, img...)
+}
+
 // monitor evaluates the write-ahead invariants over one recorded history.
 func walMonitor(hr *HistoryRun) []crashFinding {
-	w := &walState{log: append([]byte{}, hr.Base.Log...), maxLSN: -1, commits: map[int32]bool{}, lastLSN: map[int32]int32{}}
+	w := &walState{log: append([]byte{}, hr.Base.Log...), maxLSN: -1, commits: map[int32]bool{}, lastLSN: map[int32]int32{},
+		mentions: map[[2]int32]int{}, links: map[[2]int32]bool{}, lastImg: map[int32][]byte{}, seenAt: map[[2]int32]int{}}
 	w.feed("seed")
 	w.violations = nil // the seed is outside the quantifier (and its first BEGIN belongs to the start-up transaction)
 	for i := range hr.Events {
@@ -88,6 +158,7 @@ func walMonitor(hr *HistoryRun) []crashFinding {
 					w.violations = append(w.violations, crashFinding{"C08", "page-ahead-of-log/" + ctx,
 						fmt.Sprintf("heap page %d written with page LSN %d while the log on stable storage ends at LSN %d (%s)", ev.Page, lsn, w.maxLSN, ctx)})
 				}
+				w.contentRule(hr, ev.Page, ev.Data, ctx)
 			}
 		case 'M':
 			var t int
